@@ -421,7 +421,7 @@ pub fn run(seed: u64, tier: &str, shard: usize, nshards: usize, out_path: &str, 
             }
         });
     }
-    let total = if tier == "thorough" { 160_000 } else { 24_000 };
+    let total = if tier == "thorough" { 640_000 } else { 96_000 };
     let mut rng = Rng::derive(seed, 0xC16 + shard as u64);
     let n = if replay.is_some() { 1 } else { total / nshards.max(1) };
     for i in 0..n {
